@@ -1,5 +1,7 @@
 import Gomjml.Core.HeadClasses
 import Gomjml.Core.MapIter
+import Gomjml.Core.Detect
+import Gomjml.Gen.Detect
 /-! # C11 — the head provides everything the body references (property theorems only) -/
 namespace Gomjml.Props.C11
 open Gomjml.HeadClasses
@@ -21,5 +23,49 @@ example : [Blk.sec [.group (.pct "40".toList) [.per "50".toList, .per "50".toLis
     (shared with C05) -/
 theorem C11_font_lookup (l l' : List Gomjml.MapIter.FEntry) (h : l.Perm l') (nodup : (l.map Gomjml.MapIter.FEntry.name).Nodup) :
     Gomjml.MapIter.pick l = Gomjml.MapIter.pick l' := Gomjml.MapIter.pick_perm l l' h nodup
+
+/-! ### component-specific head CSS: present exactly when such a component is in the tree -/
+open Gomjml.Detect
+
+/-- the search the head runs finds a component satisfying the condition iff one of the components it REACHES satisfies it
+    (it looks below a component only when the component's type is a case of its type switch) -/
+theorem C11_search_reaches (D : String → Bool) (p : CT → Bool) (t : CT) : search D p t = (reach D t).any p :=
+  search_eq_reach D p t
+
+/-- … and when every component that has children is of such a type, that is: iff such a component exists anywhere below the body -/
+theorem C11_search_complete (D : String → Bool) (p : CT → Bool) (t : CT) (h : covered D t = true) :
+    search D p t = true ↔ ∃ n ∈ desc t, p n = true := search_iff_exists D p t h
+
+/-- component types that get children from the builders but are not descended through: their children are their own sub-parts
+    (accordion title / text / raw, carousel images), whose presence implies the parent's, which IS looked at; the head is not
+    part of the body -/
+def subPartOwners : List String :=
+  ["mjml/components.MJAccordionElementComponent", "mjml/components.MJCarouselComponent", "mjml/components.MJHeadComponent"]
+
+/-- **Regenerated fact: the detection descends through every component type the tree builders give children to** (the
+    hypothesis of `C11_search_complete`, for the code as it is now).  A new container type that the search does not know — the
+    defect behind c385b4a, where components inside mj-hero were not found — breaks this theorem. -/
+theorem C11_detection_covers_builders :
+    ∀ o ∈ Gomjml.Gen.Detect.childOwners, o ∈ Gomjml.Gen.Detect.detectCases ∨ o ∈ subPartOwners := by decide
+
+/-- Regenerated facts: which tags each detector looks for, and which detector gates which head CSS -/
+theorem C11_detectors :
+    Gomjml.Gen.Detect.detectors =
+      [("checkComponentForMobileCSS", "mj-image"),
+       ("hasAccordionComponents", "mj-accordion,mj-accordion-element,mj-accordion-text,mj-accordion-title"),
+       ("hasButtonComponents", "mj-button"),
+       ("hasCarouselComponents", "mj-carousel,mj-carousel-image"),
+       ("hasNavbarComponents", "mj-navbar,mj-navbar-link"),
+       ("hasSocialComponents", "mj-social,mj-social-element"),
+       ("hasTextComponentsRecursive", "mjml/components.MJButtonComponent,mjml/components.MJTextComponent")] ∧
+    Gomjml.Gen.Detect.gates =
+      [("hasAccordionComponents", "generateAccordionCSS"), ("hasCarouselComponents", "generateCarouselCSS"),
+       ("hasMobileCSSComponents", "<style literal>"), ("hasNavbarComponents", "generateNavbarCSS")] := by decide
+
+/-- non-vacuity: a body ▸ hero ▸ accordion ▸ element ▸ title tree; with the hero among the descending types the accordion is
+    found, without it (the code before c385b4a) it is not -/
+def tEx : CT := .node "Body" "mj-body" [.node "Hero" "mj-hero" [.node "Accordion" "mj-accordion" [.node "El" "mj-accordion-element" [.node "T" "mj-accordion-title" []]]]]
+example : search (fun ty => ty == "Body" || ty == "Hero" || ty == "Accordion") (fun n => n.tag == "mj-accordion") tEx = true ∧
+          search (fun ty => ty == "Body" || ty == "Accordion") (fun n => n.tag == "mj-accordion") tEx = false := by decide
 
 end Gomjml.Props.C11
